@@ -1,7 +1,7 @@
-(* Obligation C10/scaled_power_stays_in_range.  Statement as printed by Coq from Inferno.C10.WorldProofs; proof by reference.
+(* Obligation C10/scaled_power_stays_in_range.  Statement as printed by Coq from Inferno.C10.RangeProofs; proof by reference.
    This file contains nothing else, so the statement cannot be weakened quietly. *)
 From Coq Require Import List ZArith Bool Arith Reals Lra Lia Permutation.
-From Inferno Require Import Base.Num Base.NumR Gen.Bounding C10.Updater C10.KernelProofs C10.AccProofs C10.OrderProofs C10.WorldProofs C10.UpdateProofs C10.InterleaveProofs.
+From Inferno Require Import Base.Num Base.NumR Gen.Bounding C10.Updater C10.KernelAlgebra C10.KernelRange C10.AccProofs C10.OrderProofs C10.WorldProofs C10.RangeProofs.
 Import ListNotations.
 Open Scope R_scope.
 Theorem scaled_power_stays_in_range : forall (target : Z) (mx mn up lp : R) (ps : list (Z * tensorW)) 
@@ -20,5 +20,5 @@ Theorem scaled_power_stays_in_range : forall (target : Z) (mx mn up lp : R) (ps 
         OpFull RN target (Some (FSPow RN up lp)) (Some mx) (Some mn)] ++ ops) in
   upd RN w = Some us ->
   lookup target us = Some a -> lookup target (params RN w) = Some y -> in_range mx mn y.
-Proof. exact (@Inferno.C10.WorldProofs.scaled_power_stays_in_range). Qed.
+Proof. exact (@Inferno.C10.RangeProofs.scaled_power_stays_in_range). Qed.
 Print Assumptions scaled_power_stays_in_range.
